@@ -26,9 +26,12 @@ Definition reported_in (s : vstate) (x : occ) : bool :=
 Definition misses (body : list node) (x : occ) : Prop :=
   fst (run body) = Ok tt /\ occ_mem x (flat_map (occs true) body) = true /\ reported_in (snd (run body)) x = false.
 
-(* KF_C01_1: q[i.j] - the slice of a subscript is never visited *)
-Definition w1 : list node := [Other "Expr" [] [ESub (nm "q") (at_ (nm "i") "j") Load P0]].
-Lemma miss_slice : misses w1 (AGet, "i.j"). Proof. vm_compute. auto. Qed.
+(* q[i.j], p[i.a][i.b].k - the index of every subscript on a spine is visited (KF_C01_1 before its repair) *)
+Definition w1 : list node := [Other "Expr" [] [ESub (nm "q") (at_ (nm "i") "j") Load P0];
+                              Other "Expr" [] [at_ (ESub (ESub (nm "p") (at_ (nm "i") "a") Load P0) (at_ (nm "i") "b") Load P0) "k"]].
+Lemma slices_are_reported :
+  fst (run w1) = Ok tt /\ forallb (reported_in (snd (run w1))) [(AGet, "i.j"); (AGet, "i.a"); (AGet, "i.b")] = true.
+Proof. vm_compute. auto. Qed.
 
 (* KF_C01_2: p.m(y.z).n - arguments of a call inside a spine, and that call itself *)
 Definition w2 : list node := [Other "Expr" [] [at_ (ECall (at_ (nm "p") "m") [at_ (nm "y") "z"] [] P0) "n"]].
